@@ -139,6 +139,18 @@ def rule_count_once(check):
             b = hf.bindings().get(l[0]) if l else None
             init = b["origin"][1] if b and b["origin"][0] == "let" else None
             fed = init is not None and hir.peel(init) is te["node"]
+            if not fed and b is not None and b["origin"][0] == "param":
+                # update_status sits in a helper that is handed the result: look at the argument of the
+                # call of that helper on this path
+                for e2 in p.effects:
+                    if e2["kind"] == "call" and e2.get("node") is not None and prog.resolve_local(e2["node"]) is hf:
+                        a2 = hir.call_args(e2["node"])
+                        if b["origin"][1] < len(a2):
+                            l2 = hir.local_of(a2[b["origin"][1]])
+                            cf = prog.by_def.get(e2.get("in_fn")) or f
+                            b2 = cf.bindings().get(l2[0]) if l2 else None
+                            i2 = b2["origin"][1] if b2 and b2["origin"][0] == "let" else None
+                            fed = fed or (i2 is not None and hir.peel(i2) is te["node"])
         check.expect(fed, R, "%s/%s" % (R, arm), hir.loc(un), "one update_status fed with the status of %s" % te["name"], "update_status is not fed with the status of the result of %s" % te["name"])
     check.floor(R, "paths through a hook-emitting transform", n_t, 4)
 
@@ -148,10 +160,12 @@ def rule_tags(check):
     check.rule(R, "the telemetry tag is '+', '+=', 'Tpl' or the source name (.sym) of the called method - never the replacement name")
     prog = check.prog
     pv = Prov(prog, opaque=S.HOOK_SOURCES)
-    us, sites = S.update_status_sites(prog)
+    us, feeds = S.status_feeds(prog)
+    sites = [(f, n) for f, n, _b, _t in feeds]
     want_const = {"ADD_TAG": "+", "ADD_ASSING_TAG": "+=", "TPL_TAG": "Tpl"}
-    for f, n in sites:
-        tag = hir.call_args(n)[2]
+    for f, n, _base, tag in feeds:
+        if tag is None:
+            tag = hir.call_args(n)[2]
         os_ = pv.resolve_params(pv.origins(f, tag))
         bad = []
         kinds = set()
